@@ -184,7 +184,10 @@ func c19Start(c *Case) (*c19Node, error) {
 	go n.gs.Serve(lis)
 	// the client never limits: only the server's behaviour is under test
 	n.conn, err = grpc.NewClient(lis.Addr().String(), grpc.WithTransportCredentials(insecure.NewCredentials()),
-		grpc.WithDefaultCallOptions(grpc.MaxCallRecvMsgSize(1<<30), grpc.MaxCallSendMsgSize(1<<30)))
+		grpc.WithDefaultCallOptions(grpc.MaxCallRecvMsgSize(1<<30), grpc.MaxCallSendMsgSize(1<<30)),
+		// fixed 64 KB flow-control windows (no dynamic growth): a server stream the client does not
+		// read stands after 64 KB, which `scanwrite` relies on
+		grpc.WithInitialWindowSize(65535), grpc.WithInitialConnWindowSize(65535))
 	if err != nil {
 		return n, err
 	}
